@@ -40,7 +40,7 @@ CHECKS = {
         ref="6/C20"),
 }
 
-HOLD = {"C20"}  # registered once Properties/C20.lean is in the tree
+HOLD = set()  # registered once Properties/C20.lean is in the tree
 
 PENDING_REASON = "check under construction in this round (model and tie not yet registered); see DESIGN.md section 6"
 
